@@ -35,7 +35,8 @@
   those whose role did not yet report the transition's destination; the model then keeps their
   update in `updq` and may apply it after the failure (the dead task's role then reports the
   destination instead of ERROR; the watcher has subscribed long ago, the environment's end
-  state is the model's).
+  state is the model's). With SEVERAL pending updates every split "these before the failure, those
+  after it" is offered (each is a schedule of the model: `Label.apply k` in any order).
   The same final picture is reached on the real core with the watcher subscribed when
   `updateTaskState` of the two goroutines interleaves inside `aggregatorRole.updateState` (between
   the root's merge(ERROR) and its `parent.updateState(r.state.get())`) — the model keeps
@@ -64,6 +65,16 @@
   observation gets `(by (G…))` = per group `(env STATE (root …) (roles …))` / `(loose (STATE…))`.
   The spec speaks per environment (`specMain` ∧ `specGroups`): an environment with a failed
   critical task reports ERROR, one without still reports its state.
+  Optional last input field `(label L)` (harness/props/c03/label.go; kinds FAILED LOST KILLED
+  TERROR FINISHED INTERNAL — the failures announced by ONE message of the task's executor): what
+  the `environmentId` label of the messages about the victim names — `stale`: an id no
+  environment has (the executor was launched for an earlier environment that is gone), `none`: no
+  label at all, `other`: the first live bystander environment (needs an `env` group); absent =
+  the victim's own environment. The failure goes through `Failure.worldFailTagged` with that
+  label (`labOf`); for the code as it is the label changes nothing (`C03_label_irrelevant_code`,
+  tie `C03_internal_env_is_code`), so model observation and spec are those of the same input
+  without the field: the victim's environment — the one the task belongs to NOW — ends in
+  ERROR, whatever the messages say.
 -/
 import ControlModel.Model.FailureRoster
 
@@ -92,6 +103,7 @@ structure Scen where
   kind : Kind
   instant : String
   groups : List Group := []
+  label : String := "own"   -- own | stale | none | other: what the `environmentId` label of the victim's messages names
   deriving Repr
 
 def parseTask : SExp → Option Task
@@ -122,7 +134,7 @@ def parseScen5 (x : SExp) : Option Scen :=
     pure { live := l, tasks := tasks, victim := victim, kind := kind, instant := inst }
   | _ => none
 
-def parseScen (x : SExp) : Option Scen :=
+def parseScenG (x : SExp) : Option Scen :=
   match x with
   | .list [a, b, c, d, e] => parseScen5 (.list [a, b, c, d, e])
   | .list [a, b, c, d, e, .list gs] => do
@@ -131,6 +143,23 @@ def parseScen (x : SExp) : Option Scen :=
     if groups.isEmpty then none
     pure { sc with groups := groups }
   | _ => none
+
+/-- The kinds announced by one message of the task's executor (the messages that carry the label). -/
+def labelKind : Kind → Bool
+  | .FAILED | .LOST | .KILLED | .TERROR | .FINISHED | .INTERNAL => true
+  | _ => false
+
+def withLabel (sc : Scen) (l : String) : Option Scen :=
+  if !(["stale", "none", "other"].contains l) then none
+  else if !labelKind sc.kind then none
+  else if l == "other" && !(sc.groups.any (·.own == "env")) then none
+  else some { sc with label := l }
+
+def parseScen (x : SExp) : Option Scen :=
+  match x with
+  | .list [a, b, c, d, e, .list [.atom "label", .atom l]] => (parseScenG (.list [a, b, c, d, e])).bind (withLabel · l)
+  | .list [a, b, c, d, e, g, .list [.atom "label", .atom l]] => (parseScenG (.list [a, b, c, d, e, g])).bind (withLabel · l)
+  | _ => parseScenG x
 
 def liveT (l : St) : TState := if l = .RUNNING then .RUNNING else .CONFIGURED
 
@@ -222,9 +251,18 @@ def groupSys (g : Group) : Sys :=
 def worldOf (sc : Scen) (a : Sys) : World :=
   { envs := a :: (sc.groups.filter (·.own == "env")).map groupSys, roster := (rosterTagged sc).map (·.2) }
 
-/-- The failure event reaches the core: snapshot of the roster, the walk of the code. The main
-    environment's part IS `Failure.fail` on its own victims (`C03_roster_walk_is_fail`). -/
-def failW (sc : Scen) (k : Kind) (a : Sys) : World := worldFail codeWalk cfg k (worldOf sc a) (scopeOf sc)
+/-- What the `environmentId` label of the messages about the victim names: an environment of the
+    world (`World.envs` index; the first live bystander environment has index 1) or none. -/
+def labOf (sc : Scen) : Option Nat :=
+  match sc.label with
+  | "own" => some 0
+  | "other" => some 1
+  | _ => none
+
+/-- The failure event reaches the core: snapshot of the roster, the walk of the code, every
+    message carrying the scenario's label (irrelevant for the code: `C03_label_irrelevant_code`). The
+    main environment's part IS `Failure.fail` on its own victims (`C03_roster_walk_is_fail`). -/
+def failW (sc : Scen) (k : Kind) (a : Sys) : World := worldFailTagged codeWalk cfg k (worldOf sc a) (scopeOf sc) (labOf sc)
 
 /-- What the model says about the bystander groups (independent of the main environment's
     schedule: environments share nothing but the roster). -/
@@ -253,11 +291,14 @@ def applyTask (s : Sys) (i : Nat) : Sys :=
     else that is enabled (racelate: the watcher's GO_ERROR is already waiting for the mutex).
     (The `ready` bits of the model's inputs play no role on a buffered channel.) -/
 def finalSys (sc : Scen) (finishFirst : Bool := false) (modes : List Nat := []) (late : Bool := false)
-    (pend : List Nat := []) (stale : Nat := 0) (lost : Bool := false) : Option Sys :=
+    (pend : List Nat := []) (stale : Nat := 0) (lost : Bool := false) (before : Option (List Nat) := none) : Option Sys :=
   let base := mkSys sc (if sc.instant == "idle" then pend else [])
   -- race / racelate / raceself with `pend`: replies that had been sent but whose state update had not run when the
   -- harness looked: `stale` = 0: they run before the failure all the same; 1: after it
   let applyAllR (s : Sys) : Sys := pend.foldl applyTask s
+  -- `before = some b` (several updates pending): the updates of the tasks in `b` run before the failure, the others
+  -- after it, the watcher subscribed — every split is a schedule of the model (`Label.apply k` in any order)
+  let applyL (l : List Nat) (s : Sys) : Sys := l.foldl applyTask s
   let vs := (victims sc).map (fun i => (path i, true))
   let (ev, dst) := raceEv sc.live
   let fin (s : Sys) : Sys := if late then settleLate cfg 96 s else settle cfg 96 s
@@ -271,11 +312,12 @@ def finalSys (sc : Scen) (finishFirst : Bool := false) (modes : List Nat := []) 
     -- `stale` (only with `pend`): 0 = the pending updates run before the failure; 1 = after it, the watcher subscribed;
     -- 2 = watcher still starting: failure, updates, subscription; 3 = failure, subscription, updates
     let applyAll (s : Sys) : Sys := pend.foldl applyTask s
-    match stale with
-    | 0 => some (fin (fail sc.kind (applyAll base) vs))
-    | 1 => some (fin (fail sc.kind base vs))
-    | 2 => some (fin (istep cfg (applyAll (fail sc.kind { base with w := .starting } vs)) .subscribe))
-    | _ => some (fin (applyAll (istep cfg (fail sc.kind { base with w := .starting } vs) .subscribe)))
+    match before, stale with
+    | some b, _ => some (fin (fail sc.kind (applyL b base) vs))
+    | none, 0 => some (fin (fail sc.kind (applyAll base) vs))
+    | none, 1 => some (fin (fail sc.kind base vs))
+    | none, 2 => some (fin (istep cfg (applyAll (fail sc.kind { base with w := .starting } vs)) .subscribe))
+    | none, _ => some (fin (applyAll (istep cfg (fail sc.kind { base with w := .starting } vs) .subscribe)))
   | "race" | "racelate" => do
     let h ← holder sc
     if (victims sc).contains h then none   -- the reply that is held back would never come
@@ -283,13 +325,17 @@ def finalSys (sc : Scen) (finishFirst : Bool := false) (modes : List Nat := []) 
     let s1 := setLeaves base ((others.filter (fun i => !pend.contains i)).map path) dst true
     let s2 := { s1 with inflight := some { ev := ev, api := true, pending := [(path h, dst)], ok := true },
                         updq := (others.filter pend.contains).map (fun i => (path i, dst)) }
-    pure (fin (if stale == 0 then fail sc.kind (applyAllR s2) vs else applyAllR (fail sc.kind s2 vs)))
+    match before with
+    | some b => pure (fin (applyL (pend.filter (fun i => !b.contains i)) (fail sc.kind (applyL b s2) vs)))
+    | none => pure (fin (if stale == 0 then fail sc.kind (applyAllR s2) vs else applyAllR (fail sc.kind s2 vs)))
   | "raceself" =>
     let others := (indices sc).filter (· ≠ sc.victim)
     let s1 := setLeaves base ((others.filter (fun i => !pend.contains i)).map path) dst true
     let s2 := { s1 with inflight := some { ev := ev, api := true, pending := [], ok := !(critOf sc sc.victim) },
                         updq := (others.filter pend.contains).map (fun i => (path i, dst)) }
-    some (fin (if stale == 0 then fail sc.kind (applyAllR s2) vs else applyAllR (fail sc.kind s2 vs)))
+    match before with
+    | some b => some (fin (applyL (pend.filter (fun i => !b.contains i)) (fail sc.kind (applyL b s2) vs)))
+    | none => some (fin (if stale == 0 then fail sc.kind (applyAllR s2) vs else applyAllR (fail sc.kind s2 vs)))
   | "burst" =>
     -- all replies have arrived. `modes`: per victim, how its own reply's `go updateTaskState(dst)` interleaves with
     -- the failure's `go updateTaskState(ERROR)`: 0 = reply first; 1 = failure first (a schedule of the model: the
@@ -455,6 +501,14 @@ def processLine (line : String) : String :=
         let staleSub : List String :=
           if pend.isEmpty then [] else
             [false, true].filterMap fun l => (finalSys sc false [] l pend 1).map (fun x => toString (obsOf sc x pend))
+        -- several updates pending: some run before the failure, the others after it (watcher subscribed) — seen under
+        -- heavy load (≈ 45 on 16 cores): `(pending (0 1))`, task 0's update before, task 1's after the executor loss
+        let properSubs : List (List Nat) :=
+          if pend.length < 2 then [] else
+            (pend.foldl (fun acc i => acc.flatMap (fun l => [l, l ++ [i]])) [[]]).filter (fun l => !l.isEmpty && l.length < pend.length)
+        let staleMixed : List String :=
+          properSubs.flatMap fun b => [false, true].filterMap fun l =>
+            (finalSys sc false [] l pend 0 false (some b)).map (fun x => toString (obsOf sc x pend))
         -- burst: whether the transition ends before or after the failure is handled, and how each victim's own
         -- reply interleaves with its failure, is not determined: accept any of these schedules (monitor style)
         let nv := (victims sc).length
@@ -467,8 +521,8 @@ def processLine (line : String) : String :=
             modeLists.flatMap fun ms => [false, true].filterMap fun ff => (finalSys sc ff ms).map (fun x => toString (obsOf sc x))
           else if sc.instant == "racelate" then
             -- the watcher's GO_ERROR already waits for the mutex: it can run before the held reply's state update
-            ((finalSys sc false [] true pend 0).map (fun x => toString (obsOf sc x pend))).toList ++ staleSub
-          else staleSub ++ staleLate
+            ((finalSys sc false [] true pend 0).map (fun x => toString (obsOf sc x pend))).toList ++ staleSub ++ staleMixed
+          else staleSub ++ staleMixed ++ staleLate
         -- burst with the follow-up evidence: the victim's failure was overwritten before the root looked
         let hasAgain := match (SExp.parse impl).bind (fun io => field io "again") with
           | some _ => true
@@ -483,7 +537,7 @@ def processLine (line : String) : String :=
         | some io =>
           let spec := specOn sc io
           let hyp := if spec then "-"
-            else if staleLate.contains impl && !(oR :: staleSub).contains impl then "stale_update_overwrites_error"
+            else if staleLate.contains impl && !(oR :: staleSub ++ staleMixed).contains impl then "stale_update_overwrites_error"
             else if lostV.contains impl && !(oR :: variants).contains impl then "stale_update_overwrites_error"
             else hypOf sc io
           s!"{model}\t{if spec then 1 else 0}\t{hyp}"
